@@ -536,11 +536,16 @@ def run(ctx, ck):
     from ..symx import SymExec
     for cls in ('Wire', 'Curve'):
         for op in ('rotate', 'translate', 'scale'):
-            g = m.func('mininec.%s.%s' % (cls, op))
+            g = m.resolve_method(cls, op)      # defined in the class or inherited; hooks resolved for the class
+            if g is None:
+                raise AnalysisError('anchor vanished: %s has no method %s' % (cls, op))
+            gkey = 'mininec.%s.%s' % (cls, op)
             # on every path the object is asserted to be unsegmented before its geometry is touched
             bad = None
             npaths = 0
-            for p_ in SymExec(ctx, g, effects=True, max_paths=2000).run():
+            sx_ = SymExec(ctx, g, effects=True, max_paths=2000, depth=3)
+            sx_.self_cls = cls
+            for p_ in sx_.run():
                 if p_.end == 'raise':
                     continue
                 npaths += 1
@@ -556,7 +561,7 @@ def run(ctx, ck):
                     bad = bad or 'no assertion that the object is unsegmented'
                 elif first_store is not None and first_store < guard:
                     bad = bad or 'geometry is changed before the assertion'
-            ck.ob('R-ASSERT.not-segmented', g.qual, bad is None and npaths > 0, g.loc(),
+            ck.ob('R-ASSERT.not-segmented', gkey, bad is None and npaths > 0, g.loc(),
                   'asserts `not segments` before touching the geometry (%d paths)' % npaths if bad is None else bad)
             n += 1
     ck.floor('transformation methods', n, 6)
